@@ -53,27 +53,32 @@ theorem WY_eq (l : List (Row F)) (s : Nat) (a : Bool) (h : W (inCell s a) l ≠ 
     WY (inCell s a) l = W (inCell s a) l * cellMean l s a := by
   unfold cellMean; field_simp
 
+/-- a weighted sum over the observed rows of arm `a`, whose weight is a function `Ω` of the stratum
+    there, regrouped by stratum -/
+theorem sumIf_arm_regroup (l : List (Row F)) (S : List Nat) (hS : S.Nodup) (hl : ∀ r ∈ l, r.s ∈ S)
+    (a : Bool) (ω : Row F → F) (Ω : Nat → F) (hω : ∀ r ∈ l, r.a = a → r.obs = true → ω r = Ω r.s)
+    (g : Row F → F) :
+    sumIf (fun r => r.a == a && r.obs) (fun r => ω r * g r) l
+      = sumBy (fun s => Ω s * sumIf (inCell s a) g l) S := by
+  rw [sumIf_regroup S hS l hl]
+  apply sumBy_congr; intro s _
+  rw [← sumIf_mul_left]
+  apply sumIf_congr; intro r hr
+  by_cases h1 : r.s = s <;> by_cases h2 : r.a = a <;> by_cases h3 : r.obs = true <;>
+    simp [inStratum, inCell, h1, h2, h3]
+  · subst h1; rw [hω r hr h2 h3]; left; trivial
+
 /-- **Master lemma.**  If, on the observed rows of arm `a`, the row weight `ω` is a function
     `Ω` of the stratum, and `Ω s` times the cell's weight is proportional (same constant `c ≠ 0`
     for all strata) to the target's weight in the stratum, then the Hájek mean of the arm is the
     standardized mean. -/
 theorem hajek_eq_std (l : List (Row F)) (S : List Nat) (hS : S.Nodup) (hl : ∀ r ∈ l, r.s ∈ S)
-    (t : Tgt) (a : Bool) (ω : Row F → F) (Ω : Nat → F) (c : F) (hc : c ≠ 0)
+    (t : Row F → Bool) (a : Bool) (ω : Row F → F) (Ω : Nat → F) (c : F) (hc : c ≠ 0)
     (hω : ∀ r ∈ l, r.a = a → r.obs = true → ω r = Ω r.s)
     (hcell : ∀ s ∈ S, W (inCell s a) l ≠ 0)
     (hbal : ∀ s ∈ S, Ω s * W (inCell s a) l = c * Ntgt t l s) :
     hajek l ω a = std l S t a := by
-  have key : ∀ (g : Row F → F),
-      sumIf (fun r => r.a == a && r.obs) (fun r => ω r * g r) l
-        = sumBy (fun s => Ω s * sumIf (inCell s a) g l) S := by
-    intro g
-    rw [sumIf_regroup S hS l hl]
-    apply sumBy_congr; intro s _
-    rw [← sumIf_mul_left]
-    apply sumIf_congr; intro r hr
-    by_cases h1 : r.s = s <;> by_cases h2 : r.a = a <;> by_cases h3 : r.obs = true <;>
-      simp [inStratum, inCell, h1, h2, h3]
-    · subst h1; rw [hω r hr h2 h3]; left; trivial
+  have key := fun g => sumIf_arm_regroup l S hS hl a ω Ω hω g
   unfold hajek std
   rw [key, key]
   have hnum : sumBy (fun s => Ω s * sumIf (inCell s a) (fun r => r.w * r.y) l) S
